@@ -190,3 +190,150 @@ def _freeze(x):
     if isinstance(x, set):
         return frozenset(x)
     return x
+
+
+# ------------------------------------------------------------------------------------------------
+# sessions over generated programs (co2) and abstract histories
+
+
+class Session:
+    """Runs a program text, keeps a ledger of actions from the outgoing events and translates abstract
+    history items (["ev",k,v] | ["started",i] | ["finished",i]) into UMIM events."""
+
+    def __init__(self, text, choices=None):
+        install()
+        CHOOSER.reset(choices or [])
+        Clock.virtual = 0.0
+        self.running = []  # action uids started and not yet finished (from outgoing Start events)
+        self.action_type = {}
+        self.started_sent = set()
+        self.steps = []
+        self.state = init(text)
+        self._ledger(self.state.outgoing_events)
+        self.start_events = [dict(e) for e in self.state.outgoing_events]
+
+    def _ledger(self, events):
+        for e in events:
+            t = e["type"]
+            if t.startswith("Start") and t.endswith("Action") and "action_uid" in e:
+                self.running.append(e["action_uid"])
+                self.action_type[e["action_uid"]] = t[5:]
+
+    def concrete(self, item):
+        kind = item[0]
+        if kind == "ev":
+            d = {"type": f"Ev{item[1]}"}
+            if item[2] is not None:
+                d["v"] = item[2]
+            return d
+        if kind in ("started", "finished") and not self.running:
+            kind, item = "hit", ["hit", item[1], None]  # nothing to finish: use the slot for a guided event
+        if kind == "hit":
+            names = sorted(n for n in scan_matchers(self.state) if n.startswith("Ev"))
+            if not names:
+                return None
+            d = {"type": names[item[1] % len(names)]}
+            if item[2] is not None:
+                d["v"] = item[2]
+            return d
+        if not self.running:
+            return None
+        uid = self.running[item[1] % len(self.running)]
+        typ = self.action_type[uid]
+        if kind == "started":
+            return {"type": f"{typ}Started", "action_uid": uid}
+        if kind == "finished":
+            self.running.remove(uid)
+            return {"type": f"{typ}Finished", "action_uid": uid, "is_success": True}
+        raise ValueError(kind)
+
+    def feed(self, item):
+        e = self.concrete(item)
+        if e is None:
+            return None
+        out = feed(self.state, e)
+        self._ledger(out)
+        return out
+
+
+def scan_matchers(state):
+    """From-scratch scan: (event name -> sorted [(flow uid, head uid)]) of all waiting match statements."""
+    s = sm()
+    found = {}
+    for fs in state.flow_states.values():
+        if not s.is_listening_flow(fs):
+            continue
+        cfg = state.flow_configs[fs.flow_id]
+        for head in fs.heads.values():
+            if head.status == s.FlowHeadStatus.INACTIVE:
+                continue
+            if head.position < 0 or head.position >= len(cfg.elements):
+                continue
+            el = cfg.elements[head.position]
+            if s.is_match_op_element(el):
+                name = s.get_event_name_from_element(state, fs, el)
+                found.setdefault(name, []).append((fs.uid, head.uid))
+    return {k: sorted(v) for k, v in found.items()}
+
+
+def invariants(state):
+    """Structural invariants of C09 after a completed run_to_completion; returns a list of (kind, message)."""
+    s = sm()
+    from nemoguardrails.colang.v2_x.lang.colang_ast import MergeHeads, WaitForHeads
+
+    bad = []
+    if len(state.internal_events) != 0:
+        bad.append(("I1-internal-events-pending", f"{len(state.internal_events)} internal events left: {[e.name for e in state.internal_events][:5]}"))
+    for fs in state.flow_states.values():
+        cfg = state.flow_configs[fs.flow_id]
+        if s.is_listening_flow(fs):
+            for head in fs.heads.values():
+                if head.status == s.FlowHeadStatus.INACTIVE:
+                    continue
+                el = cfg.elements[head.position] if 0 <= head.position < len(cfg.elements) else None
+                if el is None or not (s.is_match_op_element(el) or isinstance(el, (WaitForHeads, MergeHeads))):
+                    bad.append(("I2-head-not-parked-on-wait", f"flow {fs.flow_id} ({fs.status.value}) head at {head.position}: {type(el).__name__} {getattr(el, 'op', '')}"))
+            if s.is_active_flow(fs) or fs.status == s.FlowStatus.WAITING:
+                for uid in fs.action_uids:
+                    if uid not in state.actions:
+                        bad.append(("I6-dangling-action", f"flow {fs.flow_id} references action {uid[:8]} that is not in state.actions"))
+                for uid in fs.child_flow_uids:
+                    if uid not in state.flow_states:
+                        bad.append(("I6-dangling-child", f"flow {fs.flow_id} references child {uid[:14]} that does not exist"))
+                if fs.parent_uid is not None and fs.parent_uid not in state.flow_states:
+                    bad.append(("I6-dangling-parent", f"flow {fs.flow_id} has a parent that does not exist"))
+        else:
+            live = [h for h in fs.heads.values() if h.status != s.FlowHeadStatus.INACTIVE]
+            if live:
+                bad.append(("I3-done-flow-holds-position", f"{fs.status.value} flow {fs.flow_id} still has {len(live)} non-inactive heads"))
+    scan = scan_matchers(state)
+    index = {k: sorted(v) for k, v in state.event_matching_heads.items() if v}
+    if scan != index:
+        missing = {k: [x for x in v if x not in index.get(k, [])] for k, v in scan.items()}
+        stale = {k: [x for x in v if x not in scan.get(k, [])] for k, v in index.items()}
+        missing = {k: v for k, v in missing.items() if v}
+        stale = {k: v for k, v in stale.items() if v}
+        dup = {k: len(v) - len(set(v)) for k, v in index.items() if len(v) != len(set(v))}
+
+        def names(d):
+            return {k: [state.flow_states[f].flow_id if f in state.flow_states else f"<gone:{f[:10]}>" for f, _ in v] for k, v in d.items()}
+
+        if missing:
+            bad.append(("I4-waiting-head-missing-from-index", f"{names(missing)}"))
+        if stale:
+            bad.append(("I4-stale-index-entry", f"{names(stale)}"))
+        if dup and not missing and not stale:
+            bad.append(("I4-duplicate-index-entry", f"{dup}"))
+    rev = {}
+    for name, heads in state.event_matching_heads.items():
+        for f, h in heads:
+            rev[f + h] = name
+    if rev != dict(state.event_matching_heads_reverse_map):
+        bad.append(("I4-reverse-map-mismatch", f"{len(rev)} entries from the index vs {len(state.event_matching_heads_reverse_map)} in the reverse map"))
+    by_id = {}
+    for fs in state.flow_states.values():
+        by_id.setdefault(fs.flow_id, []).append(fs.uid)
+    idx = {k: [fs.uid for fs in v] for k, v in state.flow_id_states.items() if v}
+    if {k: sorted(v) for k, v in by_id.items()} != {k: sorted(v) for k, v in idx.items()}:
+        bad.append(("I5-flow-id-index-mismatch", "flow_id_states does not partition flow_states"))
+    return bad
